@@ -28,7 +28,10 @@ def dig(t):
 
 def deq(x):
     if isinstance(x, QTensor):
-        return x.dequantize()
+        try:
+            return x.dequantize()
+        except Exception:  # noqa: BLE001
+            return torch.full(tuple(x.shape), float("nan"))
     if isinstance(x, (list, tuple)):
         return type(x)(deq(v) for v in x)
     return x
@@ -87,6 +90,10 @@ OPS = {
     "mul_scalar": ("rescale", lambda x, k: x * k),
     "rmul_scalar": ("rescale", lambda x, k: k * x),
     "div_scalar": ("rescale", lambda x, k: x / k),
+    "mul_1elem": ("passthrough_or_rescale", lambda x, r: x * torch.full([1] * r, 0.5, dtype=x.dtype)),
+    "div_1elem": ("passthrough_or_rescale", lambda x, r: x / torch.full([1] * r, 2.0, dtype=x.dtype)),
+    "cat_neg": ("move", lambda x, d: torch.cat([x, -x], dim=d)),
+    "cat_relu": ("move", lambda x, d: torch.cat([x, torch.relu(x)], dim=d)),
     "neg": ("sign", lambda x: -x),
     "relu": ("sign", lambda x: torch.relu(x)),
     "softmax": ("requant", lambda x: torch.softmax(x, dim=-1)),
@@ -117,9 +124,14 @@ def meta_of(r):
     out = {"cls": type(r).__name__}
     if not isinstance(r, QTensor):
         return out
-    d = r.dequantize()
+    try:
+        d = r.dequantize()
+    except Exception as ex:  # noqa: BLE001
+        out.update(deq_error=type(ex).__name__ + ": " + str(ex)[:120], shape=list(r.shape), axis=r.axis, scale_shape=list(r._scale.shape))
+        return out
     out.update(shape=list(r.shape), dtype=str(r.dtype), device=str(r.device), deq_shape=list(d.shape), deq_dtype=str(d.dtype), deq_device=str(d.device),
-               qtype=r.qtype.name, axis=r.axis, scale_shape=list(r._scale.shape), scale_dtype=str(r._scale.dtype))
+               qtype=r.qtype.name, axis=r.axis, scale_shape=list(r._scale.shape), scale_dtype=str(r._scale.dtype),
+               scale_min=float(r._scale.double().min()) if r._scale.numel() else 0.0)
     if isinstance(r, QBytesTensor):
         out.update(data_shape=list(r._data.shape), data_dtype=str(r._data.dtype), storage=str(r.qtype.dtype), data_device=str(r._data.device))
     elif isinstance(r, QBitsTensor):
